@@ -17,7 +17,7 @@ func init() {
 	register(&Check{
 		ID:     "C17",
 		Level:  "exploration",
-		Rule:   "28 programs (find and replace, no / flat / nested variables from named loops, zero matches, skip windows, two commands, replacement text with per-cent signs) x every text of <= 4 symbols (thorough: also every text of 5 symbols over a 7-symbol subset) over {a, \", \\, newline, 0x01, e-acute (2 bytes), 0xff, tab, %, colon, comma, U+1F600 (4 bytes, outside the BMP)}, plus four programs run with RunFiles on files whose names hold backslashes, quotes, blanks, control characters, per-cent signs, invalid UTF-8 and non-BMP characters, plus three programs on every list length 0..1100 (thorough 4200) matches: Json() and FormattedJson() must return, be valid JSON, decode to equal documents with one object per match whose filename, matchNumber, offset, line, column, value, variables (recursively) equal the in-memory match and whose replacement key is present exactly for replace commands; strings are compared exactly when valid UTF-8 and after U+FFFD substitution otherwise; non-trivial = distinct (program,text) pairs with at least one match",
+		Rule:   "31 programs (find and replace, no / flat / nested variables from named loops, zero matches, skip windows, two commands, replacement text with per-cent signs) x every text of <= 4 symbols (thorough: also every text of 5 symbols over a 7-symbol subset) over {a, \", \\, newline, 0x01, e-acute (2 bytes), 0xff, tab, %, colon, comma, U+1F600 (4 bytes, outside the BMP)}, plus four programs run with RunFiles on files whose names hold backslashes, quotes, blanks, control characters, per-cent signs, invalid UTF-8 and non-BMP characters, plus three programs on every list length 0..1100 (thorough 4200) matches: Json() and FormattedJson() must return, be valid JSON, decode to equal documents with one object per match whose filename, matchNumber, offset, line, column, value, variables (recursively) equal the in-memory match and whose replacement key is present exactly for replace commands; strings are compared exactly when valid UTF-8 and after U+FFFD substitution otherwise; non-trivial = distinct (program,text) pairs with at least one match",
 		Assume: []string{"encoding/json is the arbiter of validity and decoding"},
 		Budget: map[string]int{"quick": 120, "thorough": 900},
 		Run:    runC17,
@@ -31,6 +31,8 @@ var c17Programs = []string{
 	"find last 1 any", "find all @/(?<n>.)(.)?/", "find all line start at least 1 not '\\n'", "find all 'a'\nreplace all any with 'b'", "replace all 'a' with 'X'\nfind all any", "replace all any with ''\nfind all (any = x)\nreplace all 'a' with x", "find all whole line", "find all (any = value) (any = filename)",
 	"set t to transform return match + '\"' + '\\\\' end\nreplace all any with t", "find all caseless 'A' any", "find all in 'a', '\"', '\\\\' any", "find top 1 (at least 1 any) = all", "find all (not in 'a') = matchNumber",
 	"replace all any with '100% of %d' value '%s'", "replace all ((not 'a') = p) maybe 'a' with p p",
+	// one table holding a plain capture next to a named loop, at the top level and inside an iteration
+	"find all (any = d) at least 1 ((not 'a') = c) named lp", "find all at least 1 ((any = c) at least 0 ('a' = d) named inner) named outer", "replace all (any = d) at least 0 (any = c) named lp with d",
 }
 
 // toValidUTF8 replaces every invalid byte by U+FFFD (what encoding/json does; one
